@@ -271,3 +271,24 @@ def double_alias_rejected(k, g, a, b):
     d[x] = base[key]
     d[y] = base[key]
     return raises(lambda: from_d(d))
+
+
+def undeclared_species_rejected(side, pos, form):
+    """a network refuses a reaction that names a species it does not declare - as a reactant only, as a product only, or on both sides;
+    in any reaction position; through the constructor and through the dictionary reader"""
+    eqs = {0: ["X -> A", "A + X -> B", "2 X -> "], 1: ["A -> X", "A -> B + X", " -> X", "A -> 0 X + B"], 2: ["A + X -> X + B"]}[side]
+    sp = [Species("A"), Species("B")]
+    for eq in eqs:
+        good = [Reaction("A -> B", kf=1.0), Reaction("B -> A", kf=1.0)]
+        rs = good[:pos % 3] + [Reaction(eq, kf=1.0, kr=0)] + good[pos % 3:]
+        if form == 0:
+            if not raises(lambda: RDNetwork(species=sp, reactions=rs)):
+                return False
+        else:
+            if "0 X" in eq:
+                continue           # serialising drops a term with coefficient 0: the dictionary no longer names X
+            d = rdnetwork_to_dict(RDNetwork(species=sp + [Species("X")], reactions=rs))
+            d["species"] = [x for x in d["species"] if x.get("label", x.get("l")) != "X"]
+            if not raises(lambda: rdnetwork_from_dict(d)):
+                return False
+    return True
